@@ -375,6 +375,7 @@ pub fn finalise(
     let _ = std::fs::create_dir_all(vd.join("evidence"));
     let mut exit_code = 0;
     let mut reported: BTreeSet<String> = BTreeSet::new();
+    let mut per_sig: BTreeMap<String, u32> = BTreeMap::new();
     let mut known_hit: BTreeMap<String, u64> = BTreeMap::new();
     let mut new_viol = 0u64;
     let mut all_viol: Vec<Value> = res.stats.violations.clone();
@@ -398,8 +399,11 @@ pub fn finalise(
         }
         new_viol += 1;
         let sig = v["expect"]["signature"].as_str().unwrap_or("?").to_string();
-        if reported.contains(&sig) && reported.len() >= 1 && new_viol > 20 {
-            continue;
+        let n = per_sig.entry(sig.clone()).or_insert(0u32);
+        *n += 1;
+        if *n > 3 {
+            exit_code = 1;
+            continue; // at most three replay files per signature
         }
         let mut h = 0xcbf29ce484222325u64;
         sys::fnv(&mut h, v.to_string().as_bytes());
